@@ -53,6 +53,10 @@ type c20Round struct {
 	Live      []c20Op `json:"live"`
 	Interrupt string  `json:"interrupt,omitempty"` // "", close, close_after_delivery, error_then_close
 	Pause     []c20Op `json:"pause"`
+	// ReloadFails: the reload Get that opens this round (after an interruption) returns an error instead of an
+	// answer. This is a fault beyond a pure watch-stream interruption; divergence that only it explains is
+	// recorded as an observation, not judged.
+	ReloadFails bool `json:"reload_fails,omitempty"`
 }
 
 type c20Plan struct {
@@ -159,8 +163,11 @@ func c20GenPlan(rng interface{ Intn(int) int }, router string, ci int, thorough 
 	}
 	for r := 0; r <= nInt; r++ {
 		rd := c20Round{}
+		if r > 0 && rng.Intn(6) == 0 {
+			rd.ReloadFails = true
+		}
 		// a change in the load→watch window in about half of the rounds
-		if rng.Intn(2) == 0 {
+		if !rd.ReloadFails && rng.Intn(2) == 0 {
 			rd.Gap = genOps("gap", r, 2)
 		}
 		rd.Live = genOps("live", r, 3)
@@ -282,6 +289,9 @@ func (k *c20KV) Get(ctx context.Context, key string, opts ...clientv3.OpOption) 
 		case <-c.pauseDone[n-1]:
 		case <-ctx.Done():
 		}
+	}
+	if n > 0 && n < len(c.plan.Rounds) && c.plan.Rounds[n].ReloadFails {
+		return nil, context.DeadlineExceeded
 	}
 	resp, err := k.KV.Get(ctx, key, opts...)
 	if err == nil && n < len(c.plan.Rounds) {
@@ -635,6 +645,11 @@ func c20RunCase(t *testing.T, r *verifkit.Run, cli *clientv3.Client, ci int, rou
 	if hasGap {
 		r.Count("cases_with_gap_change", 1)
 	}
+	for _, rd := range plan.Rounds {
+		if rd.ReloadFails {
+			r.Count("reloads_failed_by_fault", 1)
+		}
+	}
 	r.Count("cases_"+router, 1)
 	for _, rd := range plan.Rounds {
 		if rd.Interrupt != "" {
@@ -667,6 +682,18 @@ func c20RunCase(t *testing.T, r *verifkit.Run, cli *clientv3.Client, ci int, rou
 			if ph == "gap" && d.Last.Round != len(plan.Rounds)-1 {
 				ph = "gap_before_reload"
 			}
+			// after the change: was there a reload that failed, and none that succeeded?
+			failed, ok := false, false
+			for n := d.Last.Round + 1; n < len(plan.Rounds) && d.Last.Phase != ""; n++ {
+				if plan.Rounds[n].ReloadFails {
+					failed = true
+				} else {
+					ok = true
+				}
+			}
+			if failed && !ok {
+				ph = "failed_reload"
+			}
 			return ph
 		}
 		for _, d := range divs {
@@ -684,6 +711,12 @@ func c20RunCase(t *testing.T, r *verifkit.Run, cli *clientv3.Client, ci int, rou
 					first = d
 					break
 				}
+			}
+			if ph == "failed_reload" {
+				// outside the statement's fault model (a reload Get error): observed, not judged
+				r.Count("observed_divergence_after_failed_reload_"+router, 1)
+				r.Note("failed_reload_observation_"+router, map[string]any{"key": first.Key, "etcd_owner": first.Etcd, "router_owner": first.Router, "last_change": first.Last, "plan": plan})
+				continue
 			}
 			var class string
 			if ph == "gap" {
